@@ -57,7 +57,7 @@ def sortValues (xs : List J) : Except PErr (List J) :=
     else match k with
       | 1 => .ok (isort (fun a b => match a, b with | .str x, .str y => x < y | _, _ => false) xs)
       | 2 => .ok (isort (fun a b => match a, b with | .num x, .num y => x < y | _, _ => false) xs)
-      | _ => .ok xs   -- bool: Less is constantly false, insertion sort leaves the order
+      | _ => .ok (isort (fun a b => match a, b with | .bool x, .bool y => !x && y | _, _ => false) xs)
 
 mutual
 def sz : J → Nat
@@ -121,7 +121,7 @@ def PI.search (fuel : Nat) (idx : PI) (pairs : List (String × J)) : Except PErr
         | .m kvs => match ki.child .map with
           | some mi => do
             let more ← PI.search fuel mi (mapToPairs kvs ++ rest)
-            pure (union ids0 more, next0 ++ [mi], rest)
+            pure (union (union ids0 more) mi.ids, next0 ++ [mi], rest)   -- ids on the Map node: patterns ending with `{}`
           | none => pure (ids0, next0, rest)
         | .a xs => do
           let sorted ← sortValues xs
